@@ -74,13 +74,21 @@ Proof. exact f_cur_spec_eq. Qed.
 Print Assumptions C14_f_cur_is_spec.
 
 (** Program level (covers write paths the traced runs do not reach): every
-    call in the anchored files that creates, writes, truncates, renames or
-    removes a file is a rename-based writer or a listed exception; the table
-    is regenerated from the source on every run. *)
-Theorem C14_writers_rename_based :
-  forall w, In w writers -> rename_based w = true \/ excepted w = true.
-Proof. exact writers_rename_based_or_excepted. Qed.
-Print Assumptions C14_writers_rename_based.
+    call in the non-test, linux-built files of internal/home, dhcpd, filtering,
+    filtering/rulelist, aghrenameio, configmigrate and aghos that creates,
+    truncates, writes, renames or removes a path is a rename-based writer, a
+    listed exception concerning one of the three kinds of file, or listed as
+    concerning another file; nothing is unresolved; no listed function contains
+    more such calls than listed.  The table is regenerated from the source
+    (go/ast) on every run. *)
+Theorem C14_writers_classified :
+  forall w, In w writers -> rename_based w = true \/ excepted w = true \/ other_file w = true.
+Proof. exact writers_classified. Qed.
+Print Assumptions C14_writers_classified.
+
+Theorem C14_writers_counts : counts_ok writers = true.
+Proof. exact writers_counts. Qed.
+Print Assumptions C14_writers_counts.
 
 Theorem C14_writers_sites_present : sites_present writers = true.
 Proof. exact expected_sites_present. Qed.
